@@ -197,6 +197,7 @@ def inline_once(f, byname, taken, counter, stack=()):
         for prm, a in zip(g["params"], e["args"]):
             binds.append({"k": "asg", "op": "=", "l": e.get("l"), "_bind": True,
                           "lhs": {"k": "var", "n": prm["n"] + tag, "vk": "local", "t": prm.get("t", "")}, "rhs": a})
+        f.setdefault("_binds", []).extend(x["lhs"]["n"] for x in binds)
         marker = dict(e)
         marker["_inlined"] = True          # the call is still visible by name; its body follows
         blk["elems"] = blk["elems"][:i] + binds + [marker]
@@ -233,6 +234,17 @@ def _expand(f_blocks, n, depth=0):
     return n
 
 
+def _peephole(n):
+    """*(&x) -> x  and  &(*x) -> x, which inlining an out-parameter produces"""
+    if n.get("k") == "un" and n.get("op") in ("*", "&") and isinstance(n.get("e"), dict):
+        e = n["e"]
+        while e.get("k") == "cast":
+            e = e["e"]
+        if e.get("k") == "un" and e.get("op") in ("*", "&") and e["op"] != n["op"] and isinstance(e.get("e"), dict):
+            return e["e"]
+    return None
+
+
 IMMUTABLE = {"nni_pipe_id", "nni_sock_id", "nni_pipe_sock", "nni_sock_proto_data", "nni_pipe_get_proto_data",
              "nni_sock_proto_pipe_ops", "nni_sock_proto_id", "nni_sock_peer_id", "nni_pipe_peer", "nni_posix_pfd_fd"}
 
@@ -259,7 +271,7 @@ def _expand_all(blocks, n, depth=0):
     return out or n
 
 
-def copyprop(f):
+def copyprop(f, only=None):
     blocks = {b["id"]: b for b in f["blocks"]}
     defs = {}       # var -> [(b, i, rhs node, asg node)]
     bad = set()     # address taken / ++ / compound
@@ -283,7 +295,8 @@ def copyprop(f):
                             defs.setdefault(d["n"], []).append((b["id"], i, d["init"], None))
                         if d.get("t", "").endswith("]") or "[" in d.get("t", ""):
                             bad.add(d["n"])
-    single = {v: ds[0] for v, ds in defs.items() if len(ds) == 1 and v not in bad and v not in params}
+    single = {v: ds[0] for v, ds in defs.items() if len(ds) == 1 and v not in bad and v not in params and
+              (only is None or v in only)}
     stable = set(params) - set(defs) - bad   # parameters never reassigned
     if not single:
         return False
@@ -480,7 +493,7 @@ def copyprop(f):
             def guard(n, pos=pos):
                 return sub(n)
             new = rewrite(e, guard)
-            # never turn an lvalue position into an rvalue expression
+            new = rewrite(new, _peephole)
             b["elems"][i] = new
         if b.get("term") and isinstance(b["term"].get("cond"), dict) and b["term"]["cond"].get("k") != "ref":
             pos = (b["id"], len(b["elems"]))
@@ -522,13 +535,16 @@ def normalize(facts, depth=1, do_inline=True, do_copyprop=True):
                 if not inline_once(f, pristine, taken, counter, stack=(f["name"],)):
                     break
                 n_inl += 1
-        if do_copyprop:
-            try:
+        try:
+            if do_copyprop:
                 if copyprop(f):
                     f["copyprop"] = True
                     n_cp += 1
-            except (KeyError, IndexError, RecursionError):
-                pass
+            elif f.get("_binds"):
+                # inlining proper: parameters of the inlined helpers stand for the arguments they were bound to
+                copyprop(f, only=set(f["_binds"]))
+        except (KeyError, IndexError, RecursionError):
+            pass
     out["functions"] = funcs
     out["normalized"] = {"inlined_functions": n_inl, "copyprop_functions": n_cp, "depth": depth}
     return out
